@@ -111,6 +111,10 @@ pub fn run_history(rec: &mut Recorder, seed: u64, hidx: u64, len: usize, nkeys: 
             rec.case(&format!("# {}", tag), "#", Verdict::Fail { class: taint.clone().unwrap_or_else(|| "fault-free-op-error".to_string()), detail: format!("{} -> {}", tag, e) }, None);
             break;
         }
+        let pf = std::mem::take(&mut sim.probe_failures);
+        if !pf.is_empty() {
+            rec.case(&format!("# {} inside", tag), "#", Verdict::Fail { class: taint.clone().unwrap_or_else(|| "needed-file-removed".to_string()), detail: format!("{} {}", tag, pf.iter().take(3).cloned().collect::<Vec<_>>().join("; ")) }, None);
+        }
         sim.chosen.clear();
         let after = sim.listing();
         let d = match sim.dump() {
@@ -237,6 +241,7 @@ pub fn run_history(rec: &mut Recorder, seed: u64, hidx: u64, len: usize, nkeys: 
     rec.add("flushes", sim.flushes);
     rec.add("compactions", sim.compactions);
     rec.add("reopens", sim.reopens);
+    rec.add("observations_inside_flush_or_compaction", sim.probes_run);
     sim.close();
 }
 
